@@ -186,6 +186,51 @@ let rfamily st : (string * string) list list =
       let v = (match rint st 6 with 0 -> String.sub base 0 2 ^ String.make si 'q' | 1 -> base ^ String.make (rrange st 100 400) 'x' | _ -> base) in
       (key, v)) keys)
 
+(* the mtbl_merge tool (src/mtbl_merge.c) with a user DSO: the output table holds the merged content of its inputs.
+   Prefix "join": the merge function needs the closure its init function returns; prefix "first": no init function. *)
+let merge_tool acc st ~(family : (string * string) list list) =
+  let bdir = (try Sys.getenv "VERIF_BUILD" with Not_found -> "/verif/build") in
+  let tool = Filename.concat bdir "bin/mtbl_merge" and dso = Filename.concat bdir "bin/merge_dso.so" in
+  let tmp = Wr.tmpdir () in
+  let pid = Unix.getpid () in
+  let inputs = List.mapi (fun i es ->
+    let path = Filename.concat tmp (Printf.sprintf "mt_%d_%d.mtbl" pid i) in
+    (try Sys.remove path with _ -> ());
+    let fd = Wr.c_open_rw path true in
+    let w = Wr.c_writer_init_fd fd (rint st 6, false, 0, true, 1024, false, 0, 0n) in
+    List.iter (fun (key, v) -> ignore (Wr.c_writer_add w key v)) es;
+    Wr.c_writer_destroy w; Wr.c_close fd; path) family in
+  let out = Filename.concat tmp (Printf.sprintf "mt_%d_out.mtbl" pid) in
+  (try Sys.remove out with _ -> ());
+  let prefix = if rint st 4 = 0 then "first" else "join" in
+  let comp = [| "none"; "snappy"; "zlib"; "lz4"; "lz4hc"; "zstd"; "ZLIB" |].(rint st 7) in
+  let bs = rrange st 512 9000 in
+  let (bs_env, bs_arg) = (match rint st 3 with 0 -> (Printf.sprintf "MTBL_MERGE_BLOCK_SIZE=%d " bs, "") | 1 -> ("", Printf.sprintf "-b %d " bs) | _ -> ("", "")) in
+  let threads = (match rint st 3 with 0 -> "" | 1 -> "-t 0 " | _ -> Printf.sprintf "-t %d " (rrange st 1 3)) in
+  let level = if rint st 3 = 0 then Printf.sprintf "-l %d " (rrange st (-3) 12) else "" in
+  let cmd = Printf.sprintf "%sMTBL_MERGE_DSO=%s MTBL_MERGE_FUNC_PREFIX=%s %s %s%s%s-c %s %s %s >/dev/null 2>&1" bs_env (Filename.quote dso) prefix (Filename.quote tool)
+      bs_arg threads level comp (String.concat " " (List.map Filename.quote inputs)) (Filename.quote out) in
+  let case = lazy (JO [ "tool", JS "mtbl_merge"; "sources", JL (List.map entries_json family); "merge_function", JS prefix; "options", JS (bs_env ^ bs_arg ^ threads ^ level ^ "-c " ^ comp) ]) in
+  record acc ~key:(json_to_string (Lazy.force case)) ~nontrivial:(List.length family >= 2) ~klass:("mtbl_merge_tool/" ^ prefix) case;
+  let status = (match Unix.system cmd with Unix.WEXITED c -> c | Unix.WSIGNALED sg -> 1000 + abs sg | Unix.WSTOPPED _ -> 2000) in
+  let got = (let r = Rd.c_reader_init out false false in
+             if r = 0n then None else begin
+               let it = Rd.c_source_iter (Rd.c_reader_source r) in
+               let l = ref [] in
+               let continue = ref true in
+               while !continue do match Rd.c_iter_next it with Some e -> l := e :: !l | None -> continue := false done;
+               Rd.c_iter_destroy it; Rd.c_reader_destroy r; Some (List.rev !l) end) in
+  let spec = merged_spec family in
+  (match got with
+   | None -> fail acc ~kind:"spec_violation" ~what:(Printf.sprintf "[C04] mtbl_merge (exit status %d) left no readable output table" status) (Lazy.force case)
+   | Some l ->
+     let ok = (if prefix = "join" then List.map (fun (key, v) -> (key, split_atoms v)) l = spec
+               else List.map fst l = List.map fst spec && List.for_all2 (fun (_, v) (_, atoms) -> List.mem v atoms) l spec) in
+     if status <> 0 || not ok then
+       fail acc ~kind:"spec_violation" ~what:(Printf.sprintf "[C04] the table written by mtbl_merge (exit status %d) is not the merged content of its inputs folded by the user merge function" status)
+         (JO [ "case", Lazy.force case; "got", entries_json l ]));
+  List.iter (fun p -> try Sys.remove p with _ -> ()) (out :: inputs)
+
 let run ~tier ~seed ~only acc =
   let idx = ref 0 in
   let want () = cur_index := !idx; (match only with None -> true | Some i -> i = !idx) in
@@ -244,6 +289,17 @@ let run ~tier ~seed ~only acc =
         @ [ (Printf.sprintf "z%d" (rint st 3), Printf.sprintf "t%d" si) ]) in
       let o = { merge = rbool st; fail_at = 0; dupsort = 0 } in
       in_child_case (fun acc' -> run_case acc' ~family ~use_readers:(rbool st) o Rd.Iter (nexts (4 * k + 2))) (JO [ "sources", JL (List.map entries_json family) ])
+    end;
+    incr idx
+  done;
+  (* the mtbl_merge tool *)
+  let nt = if tier = "thorough" then 300 else 24 in
+  for _ = 1 to nt do
+    if want () then begin
+      let st = case_rng ~seed ~engine ~index:!idx in
+      let family = List.filter (fun es -> es <> [] || rbool st) (rfamily st) in
+      let family = if family = [] then [ [ ("k", "v") ] ] else family in
+      merge_tool acc st ~family
     end;
     incr idx
   done;
